@@ -1,5 +1,6 @@
 import GoatSpec.Proofs.Cmd
 import GoatSpec.Properties.C06
+import GoatSpec.SkelSpec
 /-! # C15 — an interrupted track, patch or clean is fully recoverable with goat clean.
 
 Crash granularity is whole-file writes (assumption A8). After `k` writes every file holds
@@ -56,5 +57,32 @@ example :
     let f2 : FileSt := ⟨[.user ['c']], [['c']]⟩
     (crashState [f1, f2] (afterOf [f1, f2] [.track [0], .track [0]]) 1).map (fun g => g.items.length) = [3, 1] := by
   decide
+
+/-! ## crash points, read off the source (`vh skeleton`, regenerated on every run) -/
+section skeleton
+open GoatSpec.SkelSpec
+
+/-- **the crash points of `e2e crash` are all the points there are**: every file-system mutation
+    of the project is directly preceded by the hook at which the harness kills the process, so
+    enumerating the hook's boundaries enumerates every whole-file crash state -/
+theorem every_mutation_is_a_crash_point : unhooked = [] ∧ isFixedPoint = true := by
+  constructor <;> decide +kernel
+
+/-- the mutations happen in these seven functions only -/
+theorem mutating_functions : writers.map (·.1) =
+    ["pkg/config.InitWithConfig", "pkg/goat.CleanExecutor.clean", "pkg/goat.PatchExecutor.apply",
+     "pkg/maininfo.MainPackageInfo.ApplyMainEntry", "pkg/tracking/increment.Values.Remove",
+     "pkg/tracking/increment.Values.Save", "pkg/utils.FormatAndSave"] := by decide +kernel
+
+/-- `clean` rewrites the sources first and removes the generated file and the package directory
+    afterwards, so an interrupted clean leaves a tree a second clean still recognises -/
+theorem clean_order_in_source :
+    callOrder "pkg/goat.CleanExecutor.Run" = ["pkg/goat.CleanExecutor.prepare", "pkg/goat.CleanExecutor.clean"]
+    ∧ (callOrder "pkg/goat.CleanExecutor.clean").filter (fun f => f ≠ "pkg/config.Config.GoatGeneratedFile") =
+      ["pkg/goat.CleanExecutor.cleanContentsSequential", "pkg/goat.CleanExecutor.cleanContentsParallel", "pkg/utils.IsDirEmpty"]
+    ∧ mutates "pkg/goat.CleanExecutor.prepare" = false := by
+  decide +kernel
+
+end skeleton
 
 end GoatSpec.C15
